@@ -302,6 +302,8 @@ class Interp:
             return self.modules[name]
         m = ModuleInfo(name, self.module_path(name))
         self.modules[name] = m
+        if self.ps is None:
+            self.ps = PathState()  # module-level objects (token sets...) live outside any path
         for st in m.tree.body:
             try:
                 self.exec_stmt(st, m.env)
